@@ -2,6 +2,7 @@ import HyperModel.Model.Perm
 import HyperModel.Model.TState
 import HyperModel.Spec.CheckpointMap
 import HyperModel.Proofs.TState
+import HyperModel.Props.C04
 /-!
 # C05 State access is confined to declared keys and permissions
 
@@ -515,6 +516,83 @@ theorem commits_commute (ts : TS) (parent : KV) (sc1 sc2 : Key → Perm → Bool
     have f2 : s2.ts = ts := (run_refines p2 (rel_init ts sc2 parent)).2.2.1
     simp only [View.commit, f1, f2]
     omega
+
+/-! ### block level (`Transaction.Execute` + the per-transaction scope of `Processor.executeTxs`) -/
+
+theorem runUntilFail_prefix : ∀ (ops : List VOp) (s : View),
+    ∃ pre : List VOp, (s.runUntilFail ops).1 = (s.run pre).1 ∧ ∀ o ∈ pre, o ∈ ops
+  | [], s => ⟨[], rfl, fun _ h => h⟩
+  | o :: rest, s => by
+    simp only [View.runUntilFail]
+    by_cases hok : (s.step o).2.isOk = true
+    · simp only [hok, if_true]
+      obtain ⟨pre, h1, h2⟩ := runUntilFail_prefix rest (s.step o).1
+      refine ⟨o :: pre, ?_, ?_⟩
+      · rw [h1]; simp [View.run]
+      · intro x hx
+        rcases List.mem_cons.mp hx with e | e
+        · simp [e]
+        · exact List.mem_cons_of_mem _ (h2 x e)
+    · simp only [hok]
+      exact ⟨[o], by simp [View.run], fun x hx => by simp at hx; simp [hx]⟩
+
+theorem act_ops_no_rollback (acts : List Act) (n : Nat) : VOp.rollback n ∉ (acts.map Act.ops).flatten := by
+  intro h
+  obtain ⟨l, hl, hm⟩ := List.mem_flatten.mp h
+  obtain ⟨a, _, rfl⟩ := List.mem_map.mp hl
+  simp [Act.ops] at hm
+
+/-- **a failed transaction changes nothing**: when any access of any action of a transaction
+fails (in particular an access to an undeclared key), `Transaction.Execute` rolls the view back
+to where the first action started: no pending change remains, so the `Commit` that follows leaves
+every block-level entry as it was — the writes of the transaction's earlier actions included. -/
+theorem failed_tx_changes_nothing (ts : TS) (parent : KV) (scope : Key → Perm → Bool) (acts : List Act)
+    (e : Out) (h : ((ts.newView scope (stoOf parent)).execTx acts).2 = some e) :
+    ∀ k, ((ts.newView scope (stoOf parent)).execTx acts).1.pendingChangedKeys k = none ∧
+         ((ts.newView scope (stoOf parent)).execTx acts).1.commit.ts.changedKeys k = ts.changedKeys k := by
+  intro k
+  obtain ⟨pre, hpre, hmem⟩ := runUntilFail_prefix (acts.map Act.ops).flatten (ts.newView scope (stoOf parent))
+  have hnr : ∀ n, VOp.rollback n ∈ pre → (ts.newView scope (stoOf parent)).opIndex ≤ n := by
+    intro n hn; exact absurd (hmem _ hn) (act_ops_no_rollback acts n)
+  have hr := (C04.rollback_restores ts parent scope [] pre hnr).2.2.2.2 k
+  simp only [View.run] at hr
+  have hfr : ((ts.newView scope (stoOf parent)).run pre).1.ts = ts :=
+    (run_refines pre (rel_init ts scope parent)).2.2.1
+  have hst : ((ts.newView scope (stoOf parent)).execTx acts).1 =
+      ((ts.newView scope (stoOf parent)).run pre).1.rollback (ts.newView scope (stoOf parent)).opIndex := by
+    simp only [View.execTx] at h ⊢
+    cases hrf : (ts.newView scope (stoOf parent)).runUntilFail (acts.map Act.ops).flatten with
+    | mk s' r =>
+      rw [hrf] at h hpre
+      cases r with
+      | none => simp at h
+      | some e' => simp only; rw [← hpre]
+  have hp : ((ts.newView scope (stoOf parent)).execTx acts).1.pendingChangedKeys k = none := by
+    rw [hst, hr]; rfl
+  refine ⟨hp, ?_⟩
+  show (match ((ts.newView scope (stoOf parent)).execTx acts).1.pendingChangedKeys k with
+        | some v => some v
+        | none => ((ts.newView scope (stoOf parent)).execTx acts).1.ts.changedKeys k) = _
+  rw [hp, hst]
+  have := (rollback_frame ((ts.newView scope (stoOf parent)).run pre).1 (ts.newView scope (stoOf parent)).opIndex).1
+  simp only [this, hfr]
+
+/-- **every transaction of a block runs under its own declared keys**: in the block reference
+`TS.execBlock` the view of a transaction is scoped by `Perm.stateKeys` of that transaction's own
+action declarations, so (with `undeclared_key_denied`) an access to a key it did not declare is
+denied whatever other transactions of the block declare. Stated on the first transaction of any
+block suffix; `execBlock` recurses on the rest with the committed `TState`. -/
+theorem execBlock_scope_is_own (ts : TS) (parent : KV) (tx : List Act) (rest : List (List Act))
+    (keys : KeySet) (hk : stateKeys (tx.map Act.decl) = some keys) :
+    ts.execBlock parent (tx :: rest) =
+      (let storage : Key → StoRes := fun k =>
+         if (keys k).isSome then (match parent k with | some v => .val v | none => .notFound) else .notFound
+       let r := (ts.newView keys.has storage).execTx tx
+       match r.1.commit.ts.execBlock parent rest with
+       | none => none
+       | some (ts', rs) => some (ts', r.2 :: rs)) := by
+  simp only [TS.execBlock, hk]
+  rfl
 
 /-! ### non-vacuity -/
 example : has write read = true ∧ has allocate read = true ∧ has all write = true ∧
